@@ -589,20 +589,78 @@ func (eng *Engine) buildIntercepts() {
 					return ex.tt.False
 				}
 				tm.stopped = true
-				// nondeterministic: the timer may already have fired (its function may be running)
+				// (the race "fires while Stop is being called" is a runtime-scheduler matter: outside the model)
 				if tm.fired {
-					return ex.tt.False
-				}
-				b := ex.nondetTerm("timer_already_fired", 0)
-				if ex.branch(b) {
-					tm.fired = true
-					tm.firedBeforeStop = true
 					return ex.tt.False
 				}
 				return ex.tt.True
 			}
 		}
 		ex.unsupported("Stop on unknown timer")
+		return nil
+	}
+	// RecvWithin(ch, ms): receive from ch, letting pending ghost timers expire (in creation order) until one of
+	// them delivers. Natively: a receive with a timeout of ms milliseconds against the real timers.
+	ic[envPkg+".RecvWithin"] = func(ex *Exec, caller *frame, fn *ssa.Function, args []Value) Value {
+		c := args[0].(IfaceV).v.(*ChanV)
+		var got Value
+		have := false
+		take := &NativeFn{name: "recvwithin", f: func(ex *Exec, fr *frame, a []Value) Value {
+			got, have = a[0], true
+			return nil
+		}}
+		if len(c.buf) > 0 {
+			v, _ := ex.chanRecv(c)
+			return TupleV{IfaceV{t: c.elemT, v: v}, ex.tt.True}
+		}
+		for _, tm := range ex.timers {
+			if have {
+				break
+			}
+			if tm.stopped || tm.fired {
+				continue
+			}
+			tm.fired = true
+			c.takerFns = append(c.takerFns, take)
+			func() {
+				defer func() {
+					if r := recover(); r != nil {
+						if _, ok := r.(blockSignal); !ok {
+							panic(r)
+						}
+					}
+				}()
+				ex.call(caller, tm.f, nil, 0)
+			}()
+			if !have {
+				// the timer function did not send: withdraw the reader
+				c.takerFns = c.takerFns[:len(c.takerFns)-1]
+			}
+		}
+		if have {
+			return TupleV{got, ex.tt.True}
+		}
+		return TupleV{IfaceV{}, ex.tt.False}
+	}
+	// TimersExpire(): every pending ghost timer fires with nobody reading (its function blocks in its send
+	// and stays parked). Natively: sleep long enough for the (millisecond) timers to fire.
+	ic[envPkg+".TimersExpire"] = func(ex *Exec, caller *frame, fn *ssa.Function, args []Value) Value {
+		for _, tm := range ex.timers {
+			if tm.stopped || tm.fired {
+				continue
+			}
+			tm.fired = true
+			func() {
+				defer func() {
+					if r := recover(); r != nil {
+						if _, ok := r.(blockSignal); !ok {
+							panic(r)
+						}
+					}
+				}()
+				ex.call(caller, tm.f, nil, 0)
+			}()
+		}
 		return nil
 	}
 	ic[envPkg+".TimerCount"] = func(ex *Exec, caller *frame, fn *ssa.Function, args []Value) Value {
